@@ -20,14 +20,15 @@ Theorem C14_library_error :
 Proof. exact load_cls_library. Qed.
 Print Assumptions C14_library_error.
 
-(* the same for the GENERATED program (through generator soundness) *)
+(* the same for the GENERATED program (through generator soundness; `coherent g`: no two
+   helper-compiled types share a function name — see C02) *)
 Theorem C14_library_error_code_partial :
   forall Or ct gn c f g, c < List.length ct ->
-  gen_main ct gn c = Ok (f, g) -> coherent g = true -> region_ok ct g = true ->
+  gen_main ct gn c = Ok (f, g) -> coherent g = true ->
   forall n o e, run_main Or ct gn n c o = Err e -> is_library e = true \/ is_marker e = true.
 Proof.
-  intros Or ct gn c f g Hc Hg Hco Hr n o e H.
-  rewrite (run_main_sound Or ct gn c f g Hg Hco Hr) in H. exact (load_cls_library Or ct n c o e Hc H).
+  intros Or ct gn c f g Hc Hg Hco n o e H.
+  rewrite (run_main_sound Or ct gn c f g Hg Hco) in H. exact (load_cls_library Or ct n c o e Hc H).
 Qed.
 Print Assumptions C14_library_error_code_partial.
 
